@@ -38,7 +38,7 @@ func main() {
 
 // ---------------------------------------------------------------- running one script on the real code
 
-var modes = map[string]bool{"pipe": true, "rt": true, "wt": true, "tcp": true}
+var modes = map[string]bool{"pipe": true, "rt": true, "wt": true, "tcp": true, "pub": true, "publ": true, "pubx": true, "echo": true}
 
 func runCaseLocal(c corr.Case, emit func(i int, out string)) (res corr.Result) {
 	var w *world
@@ -91,6 +91,22 @@ func runCaseLocal(c corr.Case, emit func(i int, out string)) (res corr.Result) {
 					return "bad-op"
 				}
 				r = w.burst(n)
+			} else if f[0] == "aerr" || f[0] == "afail" {
+				if len(f) != 1 {
+					return "bad-op"
+				}
+				if r = w.acceptError(f[0] == "afail"); r == "bad-op" {
+					return r
+				}
+			} else if f[0] == "stress" {
+				if len(f) != 3 {
+					return "bad-op"
+				}
+				seed, err := strconv.Atoi(f[2])
+				if err != nil || seed < 0 || strconv.Itoa(seed) != f[2] {
+					return "bad-op"
+				}
+				r = w.stress(f[1], uint64(seed))
 			} else {
 				r = w.op(f)
 				if r == "bad-op" {
@@ -335,6 +351,45 @@ func fixedCases() []corr.Case {
 	for _, a := range killers {
 		out = append(out, mk("close-error", "init 1 pipe", "conn", "cerr 0", "send 0 aa", a+" 0", "send 0 bb", "drain 0", "conn"))
 	}
+	// the real public path (constructor, Start/LoopStart, startListen, option plumbing) with the DEFAULT manager:
+	// WithMaxConn 1..3 must be honoured, bytes queued before a local Close must arrive under the default write timeout
+	for max := 1; max <= 3; max++ {
+		m := strconv.Itoa(max)
+		for _, mode := range []string{"pub", "publ"} {
+			out = append(out, mk(mode, "init "+m+" "+mode, "burst 5", "send 0 68656c6c6f", "send 0 20776f726c64", "close 0", "conn", "pclose 0", "conn"))
+			out = append(out, mk(mode, "init "+m+" "+mode, "conn", "conn", "conn", "conn", "hpanic 0", "conn", "uh 0", "pdata 0", "herr 0"))
+		}
+		out = append(out, mk("pubx", "init "+m+" pubx", "burst 4", "conn"))
+	}
+	// Echo sessions behind the accept loop: count <= max, count returns when the handler releases it
+	for max := 0; max <= 3; max++ {
+		m := strconv.Itoa(max)
+		out = append(out, mk("echo", "init "+m+" echo", "burst 5", "start 0", "pdata 0", "herr 0", "conn", "pclose 0", "burst 3"))
+		out = append(out, mk("echo", "init "+m+" echo", "conn", "start 0", "start 0", "conn", "conn", "conn", "pclose 0", "conn"))
+	}
+	// UpdateHandler: both `s.rh != nil` branches, every killer after the handler was replaced (twice)
+	for _, a := range killers {
+		out = append(out, mk("update-handler", "init 1 pipe", "conn", "uh 0", "pdata 0", "uh 0", "pdata 0", "send 0 aa", a+" 0", "drain 0", "conn"))
+	}
+	// Accept errors: temporary ones are retried (three in a row stop the loop), a permanent one stops it
+	out = append(out,
+		mk("accept-error", "init 2 pipe", "conn", "aerr", "conn", "aerr", "aerr", "conn", "pclose 0", "conn"),
+		mk("accept-error", "init 2 pipe", "aerr", "aerr", "aerr", "conn", "burst 2", "aerr"),
+		mk("accept-error", "init 2 pipe", "conn", "afail", "conn", "burst 3", "close 0", "afail"),
+		mk("accept-error", "init 1 echo", "aerr", "conn", "afail", "conn", "pclose 0"),
+	)
+	// negative maxConn: nothing may be admitted
+	out = append(out, mk("accept", "init -1 pipe", "burst 3", "conn"), mk("accept", "init -2 echo", "burst 2"), mk("accept", "init -1 pub", "conn", "conn"))
+	// the environment assumption broken on purpose (validates the model's account of a panicking / blocking OnExit)
+	for _, a := range killers {
+		out = append(out, mk("onexit-assumption", "init 1 pipe", "conn", "xpanic 0", "send 0 aa", a+" 0", "drain 0", "conn", "close 0", "pclose 0"))
+		out = append(out, mk("onexit-assumption", "init 1 pipe", "conn", "xblock 0", "hold 0", "send 0 aa", a+" 0", "drain 0", "conn", "close 0", "pclose 0"))
+	}
+	// concurrent Close / Send / peer close, and megabyte payloads to a slow reader over the public path
+	for seed := 1; seed <= 6; seed++ {
+		out = append(out, mk("stress", "init 1 pipe", "stress race "+strconv.Itoa(seed)))
+	}
+	out = append(out, mk("stress", "init 1 pipe", "stress big 1"), mk("stress", "init 1 pipe", "stress big 2"))
 	// real timeouts (read 60 ms, write 250 ms) and loopback TCP
 	out = append(out,
 		mk("real-timeout", "init 2 rt", "conn", "conn", "send 0 aa", "conn"),
@@ -355,7 +410,17 @@ func genCase(r *rng.R, tier string, i int) corr.Case {
 	case r.Chance(1, 60):
 		return genSlow(r)
 	case r.Chance(1, 25):
-		return genTCP(r)
+		return genTCP(r, "tcp")
+	case r.Chance(1, 25):
+		return genTCP(r, r.Pick("pub", "pub", "publ"))
+	case r.Chance(1, 120):
+		return genPubx(r)
+	case r.Chance(1, 30):
+		return genEcho(r)
+	case r.Chance(1, 60):
+		return genOnExit(r)
+	case r.Chance(1, 150):
+		return corr.Case{Tag: "stress", Lines: []string{"init 1 pipe", "stress " + r.Pick("race", "race", "race", "big") + " " + strconv.Itoa(r.Intn(1<<20))}}
 	case r.Chance(1, 25):
 		return genMalformed(r)
 	}
@@ -401,6 +466,15 @@ func genCase(r *rng.R, tier string, i int) corr.Case {
 		ks := strconv.Itoa(k)
 		if r.Chance(1, 30) {
 			lines = append(lines, "cerr "+ks)
+			continue
+		}
+		if r.Chance(1, 25) {
+			lines = append(lines, "uh "+ks)
+			continue
+		}
+		if r.Chance(1, 60) {
+			lines = append(lines, "aerr") // one temporary Accept error: the loop backs off and goes on
+			conn()
 			continue
 		}
 		switch x := r.Intn(20); {
@@ -450,9 +524,11 @@ func genSlow(r *rng.R) corr.Case {
 	return corr.Case{Tag: "real-write-timeout", Lines: ls}
 }
 
-func genTCP(r *rng.R) corr.Case {
+// genTCP: loopback TCP, either behind the hook (mode tcp) or through the real public path with the default manager
+// (modes pub: NewTCPSrv+Start, publ: NewTCPSrv+LoopStart)
+func genTCP(r *rng.R, mode string) corr.Case {
 	max := r.Range(1, 3)
-	ls := []string{"init " + strconv.Itoa(max) + " tcp", "conn"}
+	ls := []string{"init " + strconv.Itoa(max) + " " + mode, "conn"}
 	nsess, count := 0, 0
 	if max >= 1 {
 		nsess, count = 1, 1
@@ -482,11 +558,11 @@ func genTCP(r *rng.R) corr.Case {
 		}
 		k := r.Intn(nsess)
 		ks := strconv.Itoa(k)
-		op := r.Pick("send", "send", "pdata", "close", "pclose", "herr", "hpanic", "hpanicnil", "start")
+		op := r.Pick("send", "send", "pdata", "close", "pclose", "herr", "hpanic", "hpanicnil", "start", "uh")
 		switch op {
 		case "send":
 			ls = append(ls, "send "+ks+" "+payload(r))
-		case "pdata", "start":
+		case "pdata", "start", "uh":
 			ls = append(ls, op+" "+ks)
 		default:
 			ls = append(ls, op+" "+ks)
@@ -496,12 +572,76 @@ func genTCP(r *rng.R) corr.Case {
 			}
 		}
 	}
-	return corr.Case{Tag: "tcp", Lines: ls}
+	return corr.Case{Tag: mode, Lines: ls}
+}
+
+// genPubx: NewTCPSrvX with a 60 ms read timeout passed through its manager options: every session ends by itself
+func genPubx(r *rng.R) corr.Case {
+	ls := []string{"init " + strconv.Itoa(r.Range(1, 2)) + " pubx"}
+	for j := r.Range(1, 3); j > 0; j-- {
+		ls = append(ls, r.Pick("conn", "conn", "burst 2", "send 0 "+payload(r)))
+	}
+	if ls[1][0] == 's' {
+		ls[1] = "conn"
+	}
+	return corr.Case{Tag: "pubx", Lines: ls}
+}
+
+// genEcho: Echo sessions (echo.go) behind the same accept loop
+func genEcho(r *rng.R) corr.Case {
+	max := r.Range(0, 3)
+	ls := []string{"init " + strconv.Itoa(max) + " echo", "conn"}
+	nsess, count := 0, 0
+	if max >= 1 {
+		nsess, count = 1, 1
+	}
+	alive := map[int]bool{0: true}
+	for j := r.Range(3, 10); j > 0; j-- {
+		if nsess == 0 || r.Chance(1, 3) {
+			nb := 1
+			if r.Chance(1, 3) {
+				nb = r.Range(2, 5)
+				ls = append(ls, "burst "+strconv.Itoa(nb))
+			} else if r.Chance(1, 8) {
+				ls = append(ls, "aerr")
+				continue
+			} else {
+				ls = append(ls, "conn")
+			}
+			for b := 0; b < nb; b++ {
+				if count < max {
+					alive[nsess] = true
+					nsess++
+					count++
+				}
+			}
+			continue
+		}
+		k := r.Intn(nsess)
+		op := r.Pick("pdata", "pdata", "start", "herr", "pclose")
+		ls = append(ls, op+" "+strconv.Itoa(k))
+		if (op == "herr" || op == "pclose") && alive[k] {
+			alive[k] = false
+			count--
+		}
+	}
+	return corr.Case{Tag: "echo", Lines: ls}
+}
+
+// genOnExit: the environment assumption broken on purpose (OnExit panics / never returns): the oracle follows the
+// model's account of the leak; the property monitors stand down for these worlds
+func genOnExit(r *rng.R) corr.Case {
+	ls := []string{"init 2 pipe", "conn", r.Pick("xpanic", "xblock") + " 0"}
+	if r.Bool() {
+		ls = append(ls, "send 0 "+payload(r))
+	}
+	ls = append(ls, r.Pick(killers...)+" 0", "send 0 "+payload(r), "conn", r.Pick("close", "pclose", "drain")+" 0", "conn")
+	return corr.Case{Tag: "onexit-assumption", Lines: ls}
 }
 
 func genMalformed(r *rng.R) corr.Case {
 	ls := []string{"init 1 pipe", "conn"}
-	bad := []string{"burst 0", "burst 9", "burst", "burst x", "cerr", "send 0", "send 0 0", "send 0 0g", "send 0 AA", "close 1", "close", "pclose x", "conn 1", "frob 0", "init", "init 1", "init 1 foo", "hold", "send 5 aa", "rerr -1", "wto 0 0"}
+	bad := []string{"aerr 0", "stress", "stress race", "stress race x", "uh", "xpanic", "init 1 pubz", "burst 0", "burst 9", "burst", "burst x", "cerr", "send 0", "send 0 0", "send 0 0g", "send 0 AA", "close 1", "close", "pclose x", "conn 1", "frob 0", "init", "init 1", "init 1 foo", "hold", "send 5 aa", "rerr -1", "wto 0 0"}
 	for j := r.Range(2, 6); j > 0; j-- {
 		if r.Chance(1, 3) {
 			ls = append(ls, r.Pick("send 0 aa", "pdata 0", "conn"))
